@@ -66,6 +66,8 @@ pub struct Ctx {
     sample_threshold: std::sync::atomic::AtomicU64,
     assumptions: Mutex<Vec<String>>,
     machinery: Mutex<Vec<String>>,
+    /// complaints of the machinery that only count when no violation explains them (merge audit)
+    machinery_soft: Mutex<Vec<String>>,
     known: Vec<Known>,
     pub replaying: bool,
 }
@@ -130,6 +132,7 @@ impl Ctx {
             sample_threshold: std::sync::atomic::AtomicU64::new(u64::MAX),
             assumptions: Mutex::new(Vec::new()),
             machinery: Mutex::new(Vec::new()),
+            machinery_soft: Mutex::new(Vec::new()),
             known,
             replaying: false,
         }
@@ -164,6 +167,14 @@ impl Ctx {
     pub fn machinery_error(&self, msg: String) {
         eprintln!("MACHINERY-ERROR: {}", msg);
         self.machinery.lock().unwrap().push(msg);
+    }
+
+    /// a complaint that is a machinery error only if the run finds no violation: a library whose
+    /// behaviour depends on something the state key deliberately drops (counters, text payload) fails
+    /// the merge audit *because* it violates the property, and the violation is the verdict then
+    pub fn machinery_soft(&self, msg: String) {
+        eprintln!("MACHINERY-NOTE: {}", msg);
+        self.machinery_soft.lock().unwrap().push(msg);
     }
 
     pub fn set(&self, key: &str, v: Value) {
@@ -228,7 +239,12 @@ impl Ctx {
     /// write evidence, print verdict lines, return the process exit code
     pub fn finish(self) -> i32 {
         let classes = self.classes.into_inner().unwrap();
-        let machinery = self.machinery.into_inner().unwrap();
+        let mut machinery = self.machinery.into_inner().unwrap();
+        let soft = self.machinery_soft.into_inner().unwrap();
+        let any_unknown = classes.keys().any(|c| !self.known.iter().any(|k| &k.class == c));
+        if !any_unknown {
+            machinery.extend(soft.iter().cloned());
+        }
         let mut exit = 0;
         let mut unknown = 0u64;
         let mut known_hits = Vec::new();
@@ -284,6 +300,9 @@ impl Ctx {
         if !machinery.is_empty() {
             cov.insert("machinery_errors".into(), json!(machinery));
             cov.insert("exhaustive".into(), json!(false));
+        }
+        if any_unknown && !soft.is_empty() {
+            cov.insert("machinery_notes".into(), json!(soft));
         }
         let ev = json!({
             "property_id": self.prop,
